@@ -30,7 +30,9 @@ RULE = ('(a) generated peer populations (0..120 peers: public/private/loopback/l
         'verified or not; tor / non-tor requester; fixed clock, seeded shuffle) -> '
         'PeerManager.on_peers_subscribe; every returned entry must be an own recently verified '
         'identity or recent & not bad & public by the harness\'s predicates, at most 2 per /16 '
-        '(/56, no-address) bucket, onion count within 50 (tor) / max(10, others//4). '
+        '(/56, no-address) bucket, onion count within 50 (tor) / max(10, others//4); then some of '
+        'the peers just advertised are marked bad (last_good still recent) or go stale and the '
+        'same manager is asked again under the same oracle. '
         'Non-trivial = some bucket holds >= 3 eligible peers and each kind of ineligible peer '
         '(stale, never, bad, non-public) is present. '
         '(b) recursive JSON feature dictionaries (and near-valid ones) -> Peer.peers_from_features: '
@@ -220,55 +222,81 @@ def run_population(case):
                 info['ineligible'].add('bad')
             if not public:
                 info['ineligible'].add('nonpublic')
-    random.seed(rseed)
-    try:
-        result = pm.on_peers_subscribe(is_tor)
-    except Exception as e:
-        return f'on_peers_subscribe raised {e!r}', 'raise', info
-    my_hosts = {me.host: me for me in pm.myselves}
-    buckets = {}
-    onion = 0
-    others = 0
-    seen = set()
-    for tup in result:
-        first, host, details = tup
-        seen.add(host)
-        if host in my_hosts:
-            me = my_hosts[host]
-            if not me.last_good > NOW - STALE:
-                return (f'own identity {host} advertised although not verified recently '
-                        f'(last_good={me.last_good - NOW:+.0f}s)'), 'self_stale', info
-            others += 1
-            continue
-        peer = by_host.get(host)
+    def query_and_judge(tag):
+        random.seed(rseed)
+        try:
+            result = pm.on_peers_subscribe(is_tor)
+        except Exception as e:
+            return f'on_peers_subscribe raised {e!r}', 'raise', info
+        my_hosts = {me.host: me for me in pm.myselves}
+        buckets = {}
+        onion = 0
+        others = 0
+        seen = set()
+        for tup in result:
+            first, host, details = tup
+            seen.add(host)
+            if host in my_hosts:
+                me = my_hosts[host]
+                if not me.last_good > NOW - STALE:
+                    return (f'own identity {host} advertised although not verified recently '
+                            f'(last_good={me.last_good - NOW:+.0f}s)'), 'self_stale', info
+                others += 1
+                continue
+            peer = by_host.get(host)
+            if peer is None:
+                return f'unknown host {host!r} advertised', 'unknown', info
+            if not peer.last_good > NOW - STALE:
+                return (f'{host} advertised although last verified {NOW - peer.last_good:.0f}s ago '
+                        f'(limit {STALE}s)'), 'stale', info
+            if peer.bad:
+                return f'{host} advertised although marked bad', 'bad', info
+            if not host_is_public(host):
+                sig = 'nonpublic'
+                if host.endswith('\n') and host_is_public(host[:-1]):
+                    sig = 'public_trailing_newline'     # same root cause as in check_features
+                return f'{host!r} advertised although not publicly routable', sig, info
+            if first != (peer.ip_addr or host):
+                return f'{host}: first tuple element {first!r}', 'tuple', info
+            bk = bucket_of(peer.ip_addr, host)
+            if bk == 'onion':
+                onion += 1
+            else:
+                others += 1
+                buckets[bk] = buckets.get(bk, 0) + 1
+                if buckets[bk] > 2:
+                    return f'more than two peers advertised from bucket {bk!r}', 'bucket', info
+        limit = 50 if is_tor else max(10, others // 4)
+        if onion > limit:
+            return (f'{onion} onion peers advertised, bound is {limit} '
+                    f'(tor requester: {is_tor}, other peers: {others})'), 'onion', info
+        info['returned'] = len(result)
+        info['onion'] = onion
+        info['last_result'] = result
+        return None, None, info
+
+    msg, sig, _ = query_and_judge('first query')
+    if msg:
+        return msg, sig, info
+    # the manager lives on: some of the peers just advertised fail their next verification (marked
+    # bad, last_good still recent), some go stale, a little time passes, and a client asks again
+    changed = 0
+    for j, tup in enumerate(info.get('last_result') or ()):
+        peer = by_host.get(tup[1])
         if peer is None:
-            return f'unknown host {host!r} advertised', 'unknown', info
-        if not peer.last_good > NOW - STALE:
-            return (f'{host} advertised although last verified {NOW - peer.last_good:.0f}s ago '
-                    f'(limit {STALE}s)'), 'stale', info
-        if peer.bad:
-            return f'{host} advertised although marked bad', 'bad', info
-        if not host_is_public(host):
-            sig = 'nonpublic'
-            if host.endswith('\n') and host_is_public(host[:-1]):
-                sig = 'public_trailing_newline'     # same root cause as in check_features
-            return f'{host!r} advertised although not publicly routable', sig, info
-        if first != (peer.ip_addr or host):
-            return f'{host}: first tuple element {first!r}', 'tuple', info
-        bk = bucket_of(peer.ip_addr, host)
-        if bk == 'onion':
-            onion += 1
-        else:
-            others += 1
-            buckets[bk] = buckets.get(bk, 0) + 1
-            if buckets[bk] > 2:
-                return f'more than two peers advertised from bucket {bk!r}', 'bucket', info
-    limit = 50 if is_tor else max(10, others // 4)
-    if onion > limit:
-        return (f'{onion} onion peers advertised, bound is {limit} '
-                f'(tor requester: {is_tor}, other peers: {others})'), 'onion', info
-    info['returned'] = len(result)
-    info['onion'] = onion
+            continue
+        what = (rseed >> (2 * (j % 15))) & 3
+        if what == 0:
+            peer.mark_bad() if hasattr(peer, 'mark_bad') else setattr(peer, 'bad', True)
+            changed += 1
+        elif what == 1:
+            peer.last_good = NOW - STALE - 5
+            changed += 1
+    info['second_query_after_changes'] = changed
+    msg, sig, _ = query_and_judge('second query')
+    if msg:
+        return 'second query on the same manager, after %d advertised peers were marked bad or ' \
+               'went stale: %s' % (changed, msg), sig, info
     return None, None, info
 
 
@@ -282,6 +310,8 @@ def pop_body(ctx):
             classes.append('pop.bucket_ge3')
         if all_kinds:
             classes.append('pop.all_ineligible_kinds')
+        if info.get('second_query_after_changes'):
+            classes.append('pop.second_query_after_advertised_peers_changed')
         if info['eligible_by_bucket'].get('onion', 0) > 10:
             classes.append('pop.onion_gt10')
             clear = sum(v for k, v in info['eligible_by_bucket'].items() if k != 'onion')
